@@ -1038,9 +1038,11 @@ def probes(rng, tier):
                 fns.append(('src_position', lambda a_, u_: g.src_position(a_), (nd,)))
             if hasattr(g, 'det_axes'):
                 fns.append(('det_axes', lambda a_, u_: g.det_axes(a_), (2, nd)))
+            shifted = isinstance(getattr(g, 'src_shift_func', None), Shift) or \
+                isinstance(getattr(g, 'det_shift_func', None), Shift)
+            if len(shape) > 1 and shifted:
+                continue            # the contract of shift functions is only given for 1-d angle arrays
             for fname, f, tail in fns:
-                if len(shape) > 1 and isinstance(getattr(g, 'src_shift_func', None), Shift):
-                    pass
                 try:
                     full = np.asarray(f(a, u))
                     ok = True
